@@ -80,16 +80,17 @@ type fnCtx struct {
 
 // G is the generator state for one package.
 type G struct {
-	t        *rapid.T
-	cfg      Config
-	prog     *Program
-	consts   []*Var
-	helpers  []*FuncSig
-	methods  map[*StructDef][]*FuncSig
-	fn       *fnCtx
-	ctr      int
-	inKey    bool
-	generics bool
+	t         *rapid.T
+	cfg       Config
+	prog      *Program
+	consts    []*Var
+	helpers   []*FuncSig
+	methods   map[*StructDef][]*FuncSig
+	fn        *fnCtx
+	ctr       int
+	inKey     bool
+	generics  bool
+	funcField bool
 }
 
 var uniformIdx = func() []int {
@@ -135,6 +136,11 @@ func Generate(t *rapid.T, cfg Config) *Program {
 		g.generics = true
 		g.prog.Consts = append(g.prog.Consts, genericHelpers)
 		g.label("generic-helpers")
+	}
+	if g.chance("funcfield", 35) {
+		g.funcField = true
+		g.prog.Consts = append(g.prog.Consts, "type Fh struct {\n\tf func(uint64) uint64\n\tk uint64\n}\n\nfunc fhInc(x uint64) uint64 {\n\treturn x + 1\n}")
+		g.label("func-field-struct")
 	}
 	ns := g.pick("nstructs", cfg.Structs+1)
 	for i := 0; i < ns; i++ {
@@ -480,6 +486,20 @@ func (g *G) prologue(sc *scope) []string {
 			}
 			fallthrough
 		default:
+			if g.funcField && g.chance("profh", 60) {
+				fn := "fhInc"
+				if g.chance("fhclosure", 60) {
+					fn = fmt.Sprintf("func(fa uint64) uint64 {\n\t\treturn fa %s %d\n\t}", []string{"+", "*", "^", "-"}[g.pick("fhop", 4)], 1+g.pick("fhlit", 9))
+				}
+				lit := fmt.Sprintf("Fh{f: %s, k: %s}", fn, g.litOf(TU64, true))
+				if g.chance("fhptr", 50) {
+					lit = "&" + lit
+				}
+				out = append(out, name+" := "+lit)
+				g.declare(sc, &Var{Name: name, T: &Ty{K: -2}, FuncHolder: true})
+				g.label("func-field-value")
+				break
+			}
 			out = append(out, "var "+name+" bool = "+g.litOf(TBool, true))
 			g.declare(sc, &Var{Name: name, T: TBool, Mutable: true})
 		}
@@ -654,6 +674,21 @@ func (g *G) nonConst(sc *scope, t *Ty, depth int) string {
 					return "machine.UInt64Get(" + use(v) + ")"
 				})
 			}
+		}
+	}
+	if t.K == KU64 && depth >= 0 && !g.inKey {
+		for _, v := range g.varsOf(sc, func(v *Var) bool { return v.FuncHolder }) {
+			v := v
+			alts = append(alts, func() string {
+				g.label("call-through-struct-field")
+				if g.chance("fhk", 30) {
+					return use(v) + ".k"
+				}
+				g.inKey = true
+				a := g.expr(sc, TU64, 0)
+				g.inKey = false
+				return use(v) + ".f(" + a + ")"
+			})
 		}
 	}
 	if t.K == KU32 && !g.cfg.NoMachine {
